@@ -676,6 +676,131 @@ static void manual_walk(const std::string& kind, std::size_t n)
     stats["elements-visited"] += 3 * static_cast<long>(n);
 }
 
+// Two adaptor ranges of the same type alive at the same time (nested loops, ranges stored in
+// variables and walked later, interleaved manual iteration): each must keep visiting ITS range.
+template <typename MakeA, typename MakeB>
+static void overlap_case(const std::string& kind, MakeA&& mk_a, MakeB&& mk_b, const std::vector<int>& want_a,
+                         const std::vector<int>& want_b)
+{
+    stats["overlapping-ranges:" + kind]++;
+    // (1) nested loops
+    {
+        std::vector<int> outer, inner_all;
+        for (auto&& x : mk_a())
+        {
+            outer.push_back(as_int(x));
+            std::vector<int> inner;
+            for (auto&& y : mk_b())
+                inner.push_back(as_int(y));
+            if (inner != want_b)
+                viol(kind + ":nested-inner-loop-wrong", "outer element " + std::to_string(outer.size()));
+        }
+        if (outer != want_a)
+            viol(kind + ":outer-loop-disturbed-by-inner-loop", std::to_string(outer.size()) + " of " + std::to_string(want_a.size()));
+    }
+    // (2) both ranges are created first, then walked one after the other and interleaved
+    {
+        auto ra = mk_a();
+        auto rb = mk_b();
+        std::vector<int> got_a, got_b;
+        for (auto&& x : ra)
+            got_a.push_back(as_int(x));
+        for (auto&& y : rb)
+            got_b.push_back(as_int(y));
+        if (got_a != want_a)
+            viol(kind + ":first-of-two-stored-ranges-wrong", "");
+        if (got_b != want_b)
+            viol(kind + ":second-of-two-stored-ranges-wrong", "");
+        auto ia = ra.begin();
+        auto ib = rb.begin();
+        std::vector<int> za, zb;
+        while (ia != ra.end() || ib != rb.end())
+        {
+            if (ia != ra.end())
+            {
+                za.push_back(as_int(*ia));
+                ++ia;
+            }
+            if (ib != rb.end())
+            {
+                zb.push_back(as_int(*ib));
+                ++ib;
+            }
+        }
+        if (za != want_a || zb != want_b)
+            viol(kind + ":interleaved-iteration-wrong", "");
+    }
+}
+
+template <typename T>
+static int as_int(const std::pair<std::size_t, T>& p); // enumerate's value type is handled by the overloads above
+
+static void overlap_checks()
+{
+    using nitro::lang::enumerate;
+    using nitro::lang::reverse;
+    static int a[3] = { 1, 2, 3 }, b[3] = { 10, 20, 30 };
+    static const int ca[4] = { 4, 5, 6, 7 }, cb[4] = { 40, 50, 60, 70 };
+    overlap_case("reverse:builtin-array", [] { return reverse(a); }, [] { return reverse(b); }, { 3, 2, 1 }, { 30, 20, 10 });
+    overlap_case("reverse:const-builtin-array", [] { return reverse(ca); }, [] { return reverse(cb); }, { 7, 6, 5, 4 },
+                 { 70, 60, 50, 40 });
+    overlap_case("reverse:same-builtin-array-twice", [] { return reverse(a); }, [] { return reverse(a); }, { 3, 2, 1 }, { 3, 2, 1 });
+    static std::vector<int> va{ 1, 2, 3, 4 }, vb{ 9, 8, 7, 6 };
+    static const std::vector<int> cva{ 1, 2, 3 }, cvb{ 5, 6, 7 };
+    overlap_case("reverse:std::vector:lvalue", [] { return reverse(va); }, [] { return reverse(vb); }, { 4, 3, 2, 1 }, { 6, 7, 8, 9 });
+    overlap_case("reverse:std::vector:const", [] { return reverse(cva); }, [] { return reverse(cvb); }, { 3, 2, 1 }, { 7, 6, 5 });
+    overlap_case("reverse:std::vector:rvalue", [] { return reverse(std::vector<int>{ 1, 2, 3 }); },
+                 [] { return reverse(std::vector<int>{ 7, 8, 9 }); }, { 3, 2, 1 }, { 9, 8, 7 });
+    overlap_case("reverse:initializer-list", [] { return reverse({ 1, 2, 3 }); }, [] { return reverse({ 4, 5, 6 }); }, { 3, 2, 1 },
+                 { 6, 5, 4 });
+    static std::list<int> la{ 1, 2 }, lb{ 3, 4 };
+    overlap_case("reverse:std::list:lvalue", [] { return reverse(la); }, [] { return reverse(lb); }, { 2, 1 }, { 4, 3 });
+    // writes through one range must land in its own array
+    {
+        int x[3] = { 1, 2, 3 }, y[3] = { 100, 200, 300 };
+        for (auto&& e : reverse(x))
+        {
+            for (auto&& f : reverse(y))
+                f += 1;
+            e *= -1;
+        }
+        if (!(x[0] == -1 && x[1] == -2 && x[2] == -3 && y[0] == 103 && y[1] == 203 && y[2] == 303))
+            viol("reverse:builtin-array:nested-writes-landed-elsewhere",
+                 std::to_string(x[0]) + "," + std::to_string(x[1]) + "," + std::to_string(x[2]) + " / " + std::to_string(y[0]) + "," +
+                     std::to_string(y[1]) + "," + std::to_string(y[2]));
+        stats["overlapping-ranges:nested-writes"]++;
+    }
+    // enumerate: the pairs' values (index checked separately through a checksum)
+    auto en = [](auto&& range) {
+        std::vector<int> r;
+        for (auto&& p : range)
+            r.push_back(static_cast<int>(p.index()) * 1000 + as_int(p.value()));
+        return r;
+    };
+    {
+        std::vector<int> outer;
+        for (auto&& p : enumerate(a))
+        {
+            outer.push_back(static_cast<int>(p.index()) * 1000 + p.value());
+            if (en(enumerate(b)) != std::vector<int>{ 10, 1020, 2030 })
+                viol("enumerate:builtin-array:nested-inner-loop-wrong", "");
+            if (en(enumerate(vb)) != std::vector<int>{ 9, 1008, 2007, 3006 })
+                viol("enumerate:std::vector:nested-inner-loop-wrong", "");
+            if (en(enumerate({ 5, 6 })) != std::vector<int>{ 5, 1006 })
+                viol("enumerate:initializer-list:nested-inner-loop-wrong", "");
+        }
+        if (outer != std::vector<int>{ 1, 1002, 2003 })
+            viol("enumerate:builtin-array:outer-loop-disturbed-by-inner-loop", "");
+        auto ea = enumerate(va);
+        auto eb = enumerate(std::vector<int>{ 7, 7 });
+        auto ec = enumerate({ 8, 9 });
+        if (en(ea) != std::vector<int>{ 1, 1002, 2003, 3004 } || en(eb) != std::vector<int>{ 7, 1007 } ||
+            en(ec) != std::vector<int>{ 8, 1009 } || en(ea) != std::vector<int>{ 1, 1002, 2003, 3004 })
+            viol("enumerate:stored-ranges-wrong", "");
+        stats["overlapping-ranges:enumerate"]++;
+    }
+}
+
 template <typename F>
 static void kind_case(const std::string& name, F&& f)
 {
@@ -758,6 +883,7 @@ int main(int argc, char** argv)
         char_array_checks<double, 2>("builtin-array<double>");
     });
     kind_case("initializer-list", [&] { ilist_checks(); });
+    kind_case("overlapping-ranges", [&] { overlap_checks(); });
     kind_case("copy-deref-range", [&] { custom_range_checks(lengths); });
     kind_case("manual-iteration", [&] {
         for (std::size_t n : lengths)
